@@ -123,7 +123,7 @@ def lit_int(v):
 
 def clone_val(v):
     k = v.kind
-    if k in ("bv", "bool", "opaque", "str", "ref", "vacant", "box", "slice", "takeparser", "digest", "fmtarg", "fmtargs"):
+    if k in ("bv", "bool", "opaque", "str", "ref", "vacant", "box", "slice", "takeparser", "digest", "fmtarg", "fmtargs", "fnitem"):
         return v
     if k == "u8buf":
         return Val("u8buf", items=list(v.items))
@@ -446,6 +446,8 @@ class Interp:
         if m:
             v = self.read(parse_place(m.group(2)), fr)
             return clone_val(v) if m.group(1) == "copy" else v
+        if re.match(r"^[A-Za-z_][\w:<>', ]*$", s) and "::" in s:
+            return Val("fnitem", path=s)        # a function item passed as a value (e.g. `.map(Self::to_owned)`)
         raise Unsupported("operand " + s)
 
     # ------------------------------------------------------------------ rvalues
@@ -714,6 +716,16 @@ class Interp:
             return self.fold(BV(64, e))
         raise Unsupported("length of " + v.kind)
 
+    def call_callable(self, cl, args):
+        """closures take (&closure, args...); function items take the arguments only"""
+        c = cl.lst[cl.idx] if cl.kind == "ref" else cl
+        if c.kind == "fnitem":
+            f = self.resolve_fn(c.path) or self.resolve_fn(re.sub(r"::<[^>]*>", "", c.path))
+            if f is None:
+                raise Unsupported("function item " + c.path)
+            return self.call_fn(f, list(args))
+        return self.call_fn(self.closure_fn(c), [Val("ref", lst=[c], idx=0)] + list(args))
+
     def closure_fn(self, cl):
         name = getattr(cl, "name", None)
         if cl.kind == "ref":
@@ -866,11 +878,10 @@ class Interp:
             mi = a[0]
             it = mi.inner
             out = []
-            f = self.closure_fn(mi.closure)
             while it.pos[0] < len(it.items):
                 x = it.items[it.pos[0]]
                 it.pos[0] += 1
-                out.append(self.call_fn(f, [Val("ref", lst=[mi.closure], idx=0), x]))
+                out.append(self.call_callable(mi.closure, [x]))
             return Val("vec", items=out)
         # ---- logging / formatting / clock: no semantic effect (assumption listed in the evidence)
         if re.search(r"<Level as PartialOrd<LevelFilter>>::le$", c):
